@@ -73,6 +73,192 @@ C03_Accept(c, trk, call, o) ==
                 [] OTHER -> TRUE
     [] OTHER -> TRUE
 
+\* ---- typed getters, fields, strings (C04 / C05 / C15 / C17) ------------------------------------
+\* getter result including the two special getters
+\*   efi_mmap: withheld while a boot-services-not-exited tag is present
+EffGet(mem, name) ==
+  IF name = "efi_mmap" THEN
+     LET bs == GetSpec(mem, "efi_bs") IN
+     CASE bs.k = "absent" -> GetSpec(mem, "efi_mmap")
+       [] bs.k = "panic" -> [k |-> "panic"]
+       [] bs.k = "must" -> [k |-> "absent"]
+       [] OTHER -> [k |-> "freeabsent"]          \* odd-sized efi_bs tag: panic or withheld
+  ELSE GetSpec(mem, name)
+
+AcceptGet(mem, name, o) ==
+  LET g == EffGet(mem, name) IN
+  CASE g.k = "absent" -> o.k = "none"
+    [] g.k = "panic" -> o.k = "panic"
+    [] g.k = "freeabsent" -> o.k \in {"panic", "none"}
+    [] OTHER ->
+         IF name = "framebuffer" THEN
+            LET ft == FbTypeSpec(mem, g.it) IN
+            CASE ft.k = "panic" -> o.k = "panic"
+              [] ft.k = "err" -> o.k = "some" /\ o.v.k = "err" /\ (o.v.v = ft.v \/ o.v.v = <<>>)
+              [] OTHER -> o.k = "some" /\ o.v.k = "ok" /\ o.v.v.at = g.it.at /\ o.v.v.sv = RoundUp8(g.it.size)
+         ELSE (g.k = "free" /\ o.k = "panic") \/ IsView(o, g.it)
+
+\* ---- specified result of reading field f of kind `name` on walk item it -----------------------
+\* a "result spec" is one of
+\*   [k "exact", o]   the outcome is fully determined
+\*   [k "ref", at, n, len]  a slice with that extent
+\*   [k "fb", s]      a framebuffer type result (AcceptFbType)
+\*   [k "free"]       unspecified but controlled: panic or some value
+\*   [k "any"]        not covered by a table entry
+Exact(o) == [k |-> "exact", o |-> o]
+RefSpec(at, n, len) == [k |-> "ref", at |-> at, n |-> n, len |-> len]
+Utf8Res(mem, at, len) == IF Utf8Valid(Bytes(mem, at, len)) THEN Exact(Ok([at |-> at, len |-> len])) ELSE Exact(Err("Utf8"))
+FieldSpec(mem, name, f, it) ==
+  LET K == InfoKind(name) IN
+  CASE name = "module" /\ f = "module_size" ->
+         LET st == Bytes(mem, it.at + 8, 4)  en == Bytes(mem, it.at + 12, 4) IN
+         IF LtLE(en, st) THEN [k |-> "free"]                 \* end < start: unspecified, but controlled
+         ELSE Exact(Val(SubLE(en, st, 0)))
+    [] name = "mmap" /\ f = "memory_areas" ->
+         LET a == MmapAreasSpec(mem, it) IN IF a.k = "panic" THEN Exact(Panic) ELSE a
+    [] name = "smbios" /\ f = "tables" -> RefSpec(it.at + 16, it.size - 16, it.size - 16)
+    [] name = "network" /\ f = "payload" ->      \* the generic trait view: padded bytes after the header
+         RefSpec(it.at + 8, RoundUp8(it.size) - 8, RoundUp8(it.size) - 8)
+    [] name = "framebuffer" /\ f = "buffer_type" -> [k |-> "fb", s |-> FbTypeSpec(mem, it)]
+    [] name \in {"rsdpv1", "rsdpv2"} /\ f = "signature" -> Utf8Res(mem, it.at + 8, 8)
+    [] name \in {"rsdpv1", "rsdpv2"} /\ f = "oem_id" -> Utf8Res(mem, it.at + 17, 6)
+    [] name = "rsdpv1" /\ f = "checksum_is_valid" ->
+         Exact(BoolVal(SumBytesMod256(Bytes(mem, it.at + 8, RsdpV1Len)) = 0))
+    [] name = "rsdpv2" /\ f = "checksum_is_valid" ->
+         LET L == U32At(mem, it.at + 28) IN
+         IF L > RsdpV2Max THEN [k |-> "free"]                 \* length beyond the tag: no specified value (C01 bounds it)
+         ELSE Exact(BoolVal(SumBytesMod256(Bytes(mem, it.at + 8, L)) = 0))
+    [] OTHER ->
+         LET fld == FieldNamed(K, f) IN
+         IF fld.n = "?" THEN [k |-> "any"]
+         ELSE Exact(Val(ZExt(Bytes(mem, it.at + fld.off, fld.w), fld.rw)))
+
+AcceptBySpec(s, o) ==
+  CASE s.k = "exact" -> IF s.o.k = "ok" THEN o.k = "ok" /\ o.v.at = s.o.v.at /\ o.v.len = s.o.v.len
+                        ELSE IF s.o.k = "err" THEN o.k = "err" /\ o.e = s.o.e
+                        ELSE IF s.o.k = "val" THEN IsVal(o, s.o.v)
+                        ELSE o.k = s.o.k
+    [] s.k = "ref" -> o.k = "ref" /\ o.at = s.at /\ o.n = s.n /\ o.len = s.len
+    [] s.k = "fb" -> AcceptFbType(s.s, o)
+    [] s.k = "free" -> o.k \in {"panic", "val"}
+    [] OTHER -> TRUE
+\* a canonical outcome satisfying a result spec (used by the reference design)
+Canon(s) ==
+  CASE s.k = "exact" -> s.o
+    [] s.k = "ref" -> s
+    [] s.k = "fb" -> s.s
+    [] OTHER -> Panic
+
+\* result spec of field(name, f) on an image, given the getter's abstract result g
+FieldCallSpec(mem, name, f, g) ==
+  CASE g.k = "absent" -> Exact(None)
+    [] g.k = "panic" -> Exact(Panic)
+    [] g.k = "freeabsent" -> [k |-> "panicornone"]
+    [] OTHER ->
+         LET ft == IF name = "framebuffer" THEN FbTypeSpec(mem, g.it) ELSE Unit IN
+         IF name = "framebuffer" /\ f # "buffer_type" /\ ft.k = "panic" THEN Exact(Panic)
+         ELSE IF name = "framebuffer" /\ f # "buffer_type" /\ ft.k = "err" THEN [k |-> "fb", s |-> ft]
+         ELSE FieldSpec(mem, name, f, g.it)
+
+AcceptField(mem, name, f, o) ==
+  LET g == EffGet(mem, name)  s == FieldCallSpec(mem, name, f, g) IN
+  IF s.k = "panicornone" THEN o.k \in {"panic", "none"}
+  ELSE (g.k = "free" /\ o.k = "panic") \/ AcceptBySpec(s, o)
+
+AcceptStrCall(mem, name, o) ==
+  LET g == EffGet(mem, name)  K == InfoKind(name) IN
+  CASE g.k = "absent" -> o.k = "none"
+    [] g.k = "panic" -> o.k = "panic"
+    [] OTHER -> AcceptStr(StrSpec(Bytes(mem, g.it.at + K.base, g.it.size - K.base), g.it.at + K.base), o)
+
+\* i-th memory area of the memory map
+AreaSpec(mem, i, f, g) ==
+  CASE g.k = "absent" -> Exact(None)
+    [] g.k = "panic" -> Exact(Panic)
+    [] OTHER ->
+         LET ar == MmapAreasSpec(mem, g.it) IN
+         IF ar.k = "panic" THEN Exact(Panic)
+         ELSE IF i >= ar.n THEN Exact(None)
+         ELSE LET a == ar.at + i * AreaSize IN
+              CASE f = "at" -> RefSpec(a, 1, AreaSize)
+                [] f = "start_address" -> Exact(Val(Bytes(mem, a, 8)))
+                [] f = "size" -> Exact(Val(Bytes(mem, a + 8, 8)))
+                [] f = "typ" -> Exact(Val(Bytes(mem, a + 16, 4)))
+                [] f = "end_address" ->
+                     IF CarryOut(Bytes(mem, a, 8), Bytes(mem, a + 8, 8), 0) = 1 THEN [k |-> "free"]
+                     ELSE Exact(Val(AddLE(Bytes(mem, a, 8), Bytes(mem, a + 8, 8), 0)))
+                [] OTHER -> [k |-> "any"]
+AcceptArea(mem, i, f, o) == AcceptBySpec(AreaSpec(mem, i, f, EffGet(mem, "mmap")), o)
+
+IsInfoRead(call) == call.op \in {"get", "field", "str", "area"}
+AcceptInfoRead(c, trk, call, o) ==
+  IF trk.loaded # "bi" THEN o.k = "skipped"
+  ELSE CASE call.op = "get" -> AcceptGet(c.mem, call.kind, o)
+         [] call.op = "field" -> AcceptField(c.mem, call.kind, call.f, o)
+         [] call.op = "str" -> AcceptStrCall(c.mem, call.kind, o)
+         [] call.op = "area" -> AcceptArea(c.mem, call.i, call.f, o)
+
+KindOfCall(call) == IF call.op = "area" THEN "mmap" ELSE call.kind
+\* content-level conformance beyond the size: a palette that fits, 24-byte memory-map entries
+SpecConformant(mem, name, it) ==
+  CASE name = "framebuffer" -> FbTypeSpec(mem, it).k # "panic"
+    [] name = "mmap" -> MmapAreasSpec(mem, it).k # "panic"
+    [] OTHER -> TRUE
+\* C04: first-match selection and exact decoding for conformant tags (and "nothing" when absent)
+C04_Accept(c, trk, call, o) ==
+  IF ~IsInfoRead(call) \/ trk.loaded # "bi" THEN TRUE
+  ELSE LET g == EffGet(c.mem, KindOfCall(call)) IN
+       (g.k = "absent" \/ (g.k = "must" /\ SpecConformant(c.mem, KindOfCall(call), g.it))) /\ call.op # "str"
+          => AcceptInfoRead(c, trk, call, o)
+\* C05: extents of variable-length kinds; undersized / non-divisible sizes are rejected by a panic
+C05_Accept(c, trk, call, o) ==
+  IF ~IsInfoRead(call) \/ trk.loaded # "bi" THEN TRUE
+  ELSE LET K == InfoKind(KindOfCall(call))  f == FindSpec(InfoWalk(c.mem), K.id) IN
+       (K.dst /\ f.k = "found" /\ call.op # "str") => AcceptInfoRead(c, trk, call, o)
+\* C15: a typed view either panics or sits at the tag's address with the tag's rounded size
+C15_Accept(c, trk, call, o) ==
+  IF call.op # "get" \/ trk.loaded # "bi" THEN TRUE
+  ELSE LET K == InfoKind(call.kind)  f == FindSpec(InfoWalk(c.mem), K.id) IN
+       f.k = "found" =>
+         \/ o.k \in {"panic", "none"}
+         \/ (o.k = "some" /\ Has(o.v, "at") /\ o.v.at = f.it.at /\ o.v.sv = RoundUp8(f.it.size))
+         \/ (o.k = "some" /\ Has(o.v, "k") /\ (o.v.k = "err" \/ (o.v.v.at = f.it.at /\ o.v.v.sv = RoundUp8(f.it.size))))
+\* C17 (parse side): NUL / UTF-8 rules inside the declared size
+C17_Accept(c, trk, call, o) ==
+  IF call.op # "str" THEN TRUE ELSE AcceptInfoRead(c, trk, call, o)
+\* a getter / accessor whose walk panics before a match must panic (C03)
+C03_InfoRead(c, trk, call, o) ==
+  IF ~IsInfoRead(call) \/ trk.loaded # "bi" THEN TRUE
+  ELSE EffGet(c.mem, KindOfCall(call)).k = "panic" /\ FindSpec(InfoWalk(c.mem), InfoKind(KindOfCall(call)).id).k = "panic"
+       => o.k = "panic"
+
+\* ---- C01: never outside the region, never a crash, references inside the owning tag ------------
+InfoOps == {"load", "tags", "module_tags", "efi_areas", "elf_sections", "elf_sections_deprecated", "next", "clone",
+            "len", "size_hint", "get", "field", "str", "area", "dbg", "elf_field", "elf_name"}
+\* extents (at, length) carried by an outcome
+ExtOfRec(r) == IF Has(r, "at") THEN {<<r.at, IF Has(r, "sv") THEN r.sv ELSE IF Has(r, "len") THEN r.len ELSE 0>>} ELSE {}
+Exts(o) ==
+  CASE o.k = "ref" -> {<<o.at, o.len>>}
+    [] o.k \in {"some", "ok"} ->
+         IF Has(o.v, "k") THEN (IF o.v.k = "ok" THEN ExtOfRec(o.v.v) ELSE {}) ELSE ExtOfRec(o.v)
+    [] OTHER -> {}
+Inside(e, lo, hi) == e[1] >= lo /\ e[2] >= 0 /\ e[1] + e[2] <= hi
+\* the extent a call's results must stay in
+OwnerExtent(c, trk, call) ==
+  LET T == U32At(c.mem, 0) IN
+  IF call.op \in {"get", "field", "str", "area"} THEN
+     LET K == InfoKind(KindOfCall(call))  f == FindSpec(InfoWalk(c.mem), K.id) IN
+     IF f.k # "found" THEN <<8, T>>
+     ELSE IF call.op = "str" THEN <<f.it.at + K.base, f.it.at + f.it.size>>
+     ELSE <<f.it.at, f.it.at + RoundUp8(f.it.size)>>
+  ELSE IF call.op = "load" THEN <<0, T>>
+  ELSE <<8, T>>
+C01_Accept(c, trk, call, o) ==
+  IF call.op \notin InfoOps \/ (call.op \in {"next", "clone", "len", "size_hint"} /\ HasIt(trk, call.it)
+                                /\ ItOf(trk, call.it).kind \in {"htags", "dummy"}) THEN TRUE
+  ELSE /\ Controlled(o)
+       /\ LET oe == OwnerExtent(c, trk, call) IN \A e \in Exts(o) : Inside(e, oe[1], oe[2])
+
 \* ---- reference design of the session (constructive; drives the MC_* models) -----------
 \* ds: loaded, its: id |-> [kind, cur, end, dead]
 DsInit == [loaded |-> "none", its |-> <<>>]
@@ -88,6 +274,46 @@ DesignModNext(mem, end, cur, dead) ==
        THEN IF r.o.v.plen < ModuleBase - 8 THEN [o |-> Panic, cur |-> r.cur, dead |-> FALSE]  \* dst_len assertion in cast; cursor already advanced
             ELSE [o |-> Some([at |-> r.o.v.at, size |-> r.o.v.size, sv |-> r.o.v.sv]), cur |-> r.cur, dead |-> r.dead]
        ELSE DesignModNext(mem, end, r.cur, r.dead)
+
+\* get_tag: find() over a fresh tag iterator, then cast (size assertion)
+RECURSIVE DesignFind(_, _, _, _)
+DesignFind(mem, end, cur, typ) ==
+  LET r == DesignTagNext(mem, end, cur, FALSE) IN
+  IF r.o.k = "none" THEN [k |-> "absent"]
+  ELSE IF r.o.k = "panic" THEN [k |-> "panic"]
+  ELSE IF r.o.v.typ = typ THEN [k |-> "found", it |-> [at |-> r.o.v.at, typ |-> r.o.v.typ, size |-> LE4(r.o.v.size)]]
+  ELSE DesignFind(mem, end, r.cur, typ)
+DesignGetTag(mem, name) ==
+  LET K == InfoKind(name)  f == DesignFind(mem, U32At(mem, 0), 8, U32Bytes(K.id)) IN
+  IF f.k # "found" THEN f
+  ELSE LET cst == IF K.dst THEN DesignCastDst(f.it.at, K.base, K.elem, IF K.elem = 24 THEN 8 ELSE 1, f.it.size)
+                  ELSE DesignCastSized(f.it.at, RoundUp8(K.wire), f.it.size) IN
+       IF cst.k = "panic" THEN [k |-> "panic"] ELSE [k |-> "must", it |-> f.it]
+DesignEffGet(mem, name) ==
+  IF name = "efi_mmap" THEN
+     LET bs == DesignGetTag(mem, "efi_bs") IN
+     CASE bs.k = "absent" -> DesignGetTag(mem, "efi_mmap")
+       [] bs.k = "panic" -> bs
+       [] OTHER -> [k |-> "absent"]
+  ELSE DesignGetTag(mem, name)
+DesignInfoRead(mem, call) ==
+  LET name == KindOfCall(call)  g == DesignEffGet(mem, name) IN
+  CASE call.op = "get" ->
+         (CASE g.k = "absent" -> None
+            [] g.k = "panic" -> Panic
+            [] OTHER -> IF name = "framebuffer" THEN
+                           LET ft == FbTypeSpec(mem, g.it) IN
+                           IF ft.k = "panic" THEN Panic
+                           ELSE IF ft.k = "err" THEN Some(ft)
+                           ELSE Some(Ok(ViewRec(g.it)))
+                        ELSE Some(ViewRec(g.it)))
+    [] call.op = "field" -> Canon(FieldCallSpec(mem, name, call.f, g))
+    [] call.op = "area" -> Canon(AreaSpec(mem, call.i, call.f, g))
+    [] call.op = "str" ->
+         (CASE g.k = "absent" -> None
+            [] g.k = "panic" -> Panic
+            [] OTHER -> LET K == InfoKind(name) IN
+                        StrSpec(Bytes(mem, g.it.at + K.base, g.it.size - K.base), g.it.at + K.base))
 
 DesignStep(c, ds, call) ==
   CASE call.op = "ref_from_slice" ->
@@ -110,12 +336,21 @@ DesignStep(c, ds, call) ==
                   r == IF s.kind = "tags" THEN DesignTagNext(c.mem, s.end, s.cur, s.dead)
                        ELSE DesignModNext(c.mem, s.end, s.cur, s.dead) IN
               [o |-> r.o, ds |-> DsSetIt(ds, call.it, [s EXCEPT !.cur = r.cur, !.dead = r.dead])]
+    [] IsInfoRead(call) ->
+         [o |-> IF ds.loaded = "bi" THEN DesignInfoRead(c.mem, call) ELSE Skipped, ds |-> ds]
+    [] call.op = "dbg" ->      \* Debug formatting: only the outcome class is specified (C01: controlled)
+         [o |-> IF ds.loaded = "none" THEN Skipped ELSE Unit, ds |-> ds]
     [] OTHER -> [o |-> [k |-> "unsupported"], ds |-> ds]
 
 \* ---- dispatch -------------------------------------------------------------------------
 AcceptP(p, c, trk, call, o) ==
-  CASE p = "C02" -> C02_Accept(c, trk, call, o)
-    [] p = "C03" -> C03_Accept(c, trk, call, o)
+  CASE p = "C01" -> C01_Accept(c, trk, call, o)
+    [] p = "C02" -> C02_Accept(c, trk, call, o)
+    [] p = "C03" -> C03_Accept(c, trk, call, o) /\ C03_InfoRead(c, trk, call, o)
+    [] p = "C04" -> C04_Accept(c, trk, call, o)
+    [] p = "C05" -> C05_Accept(c, trk, call, o)
+    [] p = "C15" -> C15_Accept(c, trk, call, o)
+    [] p = "C17" -> C17_Accept(c, trk, call, o)
     [] p = "C14" -> C14_Accept(c, trk, call, o)
     [] OTHER -> TRUE
 
